@@ -35,9 +35,19 @@
 //! * locktable.kernel (through the engine): after a successful statement every matched row is owned by
 //!   the caller, no owner was replaced; a refused statement changes no owner.
 //! * lock.timeout: lock timeout 0, once `is_row_locked` reports the lock expired B's statement succeeds.
+//! * lock.takeover_released: lock timeout 1 s (the smallest non-zero value `RelationalConfig` can express).  T1
+//!   modifies row(s) and never ends; after ONE sleep of 1.1 s (the only sleep of the run; all scenarios are built
+//!   first, then continued) its row locks are expired.  T2 then modifies rows (taking T1's expired locks over,
+//!   possibly together with rows nobody held) and ends by commit / rollback.  Contract: after T2 ended no row of
+//!   the table is locked by T2 (`row_lock_holder`, `is_row_locked`, `locks_held_by(T2) == 0`, `active_lock_count`
+//!   not larger than before T2's first statement), the table + indexed reads equal the model, and a third
+//!   transaction T3 can update and delete every row T2 had modified without `LockConflict` (results = model).
+//!   The expiry itself and T2's statements succeeding after it are `lock.timeout` checks.
 //!
 //! The case JSON is the script: `{"idx":0,"steps":[["A","upd","1",11,0],["B","del","all"],["A","rollback"],...]}`
 //! (`["T","ins",id,tag,mode]`, `["T","upd",cond,tag,mode]`, `["T","del",cond]`, cond = "k" | "all" | "<=k").
+//! A takeover case is `{"takeover":true,"idx":0,"steps":[["A","upd","1",11,0],["B","upd","<=2",21,0],["B","commit"]]}`:
+//! A = T1 (statements only, never ends), the sleep, then B = T2 (statements, then commit | rollback); T3 is implicit.
 //! No files are written (in-memory engines only).
 use crate::fw::{Report, Rng, Tier};
 use relational_engine::{Column, ColumnType, Condition, RelationalConfig, RelationalEngine, RelationalError, Schema, Value};
@@ -66,7 +76,13 @@ const OB_TO: &str = "C09.lock.timeout";
 /// exclusion clause says must be refused (consequences of a failing C09.lock.exclusion.{deleted,inserted})
 const OB_V_D: &str = "C09.view.after_missed_conflict.deleted";
 const OB_V_I: &str = "C09.view.after_missed_conflict.inserted";
-const ALL_OBS: [&str; 14] = [OB_RB, OB_RB_I, OB_CM, OB_CM_I, OB_EX, OB_EX_D, OB_EX_I, OB_AON, OB_PH, OB_REL, OB_KER, OB_TO, OB_V_D, OB_V_I];
+/// row-lock takeover after expiry: the taker releases the taken-over lock when it ends
+const OB_TK: &str = "C09.lock.takeover_released";
+const ALL_OBS: [&str; 15] = [OB_RB, OB_RB_I, OB_CM, OB_CM_I, OB_EX, OB_EX_D, OB_EX_I, OB_AON, OB_PH, OB_REL, OB_KER, OB_TO, OB_V_D, OB_V_I, OB_TK];
+/// lock timeout of the takeover scenarios: the smallest non-zero value `with_lock_timeout_secs` can express
+const TAKEOVER_LOCK_SECS: u64 = 1;
+/// the ONE sleep of the run (a lock is expired once MORE than the timeout has elapsed)
+const TAKEOVER_SLEEP_MS: u64 = 1100;
 
 // ------------------------------------------------------------------------------------------ scripts
 
@@ -92,7 +108,8 @@ impl Cond {
 
 /// Statement values:
 /// ins mode 0: (id, "n<tag>", tag.0); mode 1: (id, explicit NULL name, score column omitted)
-/// upd mode 0: name="n<tag>", score=tag+0.5; 1: score=tag.0; 2: name=NULL; 3: name="a"
+/// upd mode 0: name="n<tag>", score=tag+0.5; 1: score=tag.0; 2: name=NULL; 3: name="a" (the value rows 1 and 3
+/// already hold); 4: score=1.0 (the value row 1 already holds)
 #[derive(Clone, PartialEq, Debug)]
 enum Op { Ins { id: i64, tag: i64, mode: u8 }, Upd { c: Cond, tag: i64, mode: u8 }, Del { c: Cond }, Commit, Rollback }
 
@@ -183,6 +200,7 @@ fn upd_apply(r: &mut MRow, tag: i64, mode: u8) {
         0 => { r.name = Some(format!("n{tag}")); r.score = Some(tag as f64 + 0.5); },
         1 => r.score = Some(tag as f64),
         2 => r.name = None,
+        4 => r.score = Some(1.0),
         _ => r.name = Some("a".into()),
     }
 }
@@ -193,6 +211,7 @@ fn upd_map(tag: i64, mode: u8) -> HashMap<String, Value> {
         0 => { m.insert("name".to_string(), Value::String(format!("n{tag}"))); m.insert("score".to_string(), Value::Float(tag as f64 + 0.5)); },
         1 => { m.insert("score".to_string(), Value::Float(tag as f64)); },
         2 => { m.insert("name".to_string(), Value::Null); },
+        4 => { m.insert("score".to_string(), Value::Float(1.0)); },
         _ => { m.insert("name".to_string(), Value::String("a".into())); },
     }
     m
@@ -211,14 +230,20 @@ fn model_apply(rows: &mut Vec<MRow>, next_eid: &mut u64, op: &Op) {
 type Canon = Vec<(u64, i64, Option<String>, Option<u64>)>;
 
 /// strict: engine row ids of all rows; otherwise only those of the initial rows (user id <= 3)
-fn canon(rows: &[MRow], strict: bool) -> Canon {
-    let mut v: Canon = rows.iter().map(|r| (if strict || r.id <= 3 { r.eid } else { 0 }, r.id, r.name.clone(), r.score.map(f64::to_bits))).collect();
+fn canon(rows: &[MRow], strict: bool) -> Canon { canon_of(rows.iter(), strict) }
+
+fn canon_of<'a>(rows: impl Iterator<Item = &'a MRow>, strict: bool) -> Canon {
+    let mut v: Canon = rows.map(|r| (if strict || r.id <= 3 { r.eid } else { 0 }, r.id, r.name.clone(), r.score.map(f64::to_bits))).collect();
     v.sort();
     v
 }
 
 #[derive(Clone, Debug)]
-enum Probe { NameEq(String), NameGe(String), NameLt(String), ScoreEq(f64), ScoreGe(f64), ScoreLt(f64), ScoreGt(f64), ScoreLe(f64) }
+enum Probe {
+    NameEq(String), NameGe(String), NameLt(String), ScoreEq(f64), ScoreGe(f64), ScoreLt(f64), ScoreGt(f64), ScoreLe(f64),
+    /// equality through the btree index: `col >= x AND col <= x` (a plain `Eq` is only served by a hash index)
+    NameBtEq(String), ScoreBtEq(f64),
+}
 
 impl Probe {
     fn cond(&self) -> Condition {
@@ -231,6 +256,8 @@ impl Probe {
             Probe::ScoreLt(x) => Condition::Lt("score".into(), Value::Float(*x)),
             Probe::ScoreGt(x) => Condition::Gt("score".into(), Value::Float(*x)),
             Probe::ScoreLe(x) => Condition::Le("score".into(), Value::Float(*x)),
+            Probe::NameBtEq(s) => Condition::Ge("name".into(), Value::String(s.clone())).and(Condition::Le("name".into(), Value::String(s.clone()))),
+            Probe::ScoreBtEq(x) => Condition::Ge("score".into(), Value::Float(*x)).and(Condition::Le("score".into(), Value::Float(*x))),
         }
     }
     /// SQL-like: NULL never satisfies a comparison with a non-NULL constant
@@ -244,6 +271,8 @@ impl Probe {
             Probe::ScoreLt(x) => r.score.is_some_and(|y| y < *x),
             Probe::ScoreGt(x) => r.score.is_some_and(|y| y > *x),
             Probe::ScoreLe(x) => r.score.is_some_and(|y| y <= *x),
+            Probe::NameBtEq(s) => r.name.as_deref() == Some(s.as_str()),
+            Probe::ScoreBtEq(x) => r.score == Some(*x),
         }
     }
 }
@@ -266,9 +295,15 @@ fn probes_for(sc: &Script) -> Vec<Probe> {
     let mut p = vec![];
     let (hash_name, btree_score, hash_score, btree_name) = match sc.idx { 0 | 3 => (true, true, false, false), 1 => (false, false, true, true), _ => (true, true, true, true) };
     if hash_name { for n in &names { p.push(Probe::NameEq(n.clone())); } }
-    if btree_score { p.extend([Probe::ScoreGe(0.0), Probe::ScoreLt(1.5), Probe::ScoreGt(2.0), Probe::ScoreLe(12.0), Probe::ScoreGe(21.0)]); }
+    if btree_score {
+        p.extend([Probe::ScoreGe(0.0), Probe::ScoreLt(1.5), Probe::ScoreGt(2.0), Probe::ScoreLe(12.0), Probe::ScoreGe(21.0)]);
+        p.extend([Probe::ScoreBtEq(1.0), Probe::ScoreBtEq(2.0)]);
+    }
     if hash_score { for x in &scores { p.push(Probe::ScoreEq(*x)); } }
-    if btree_name { p.extend([Probe::NameGe("b".into()), Probe::NameLt("b".into()), Probe::NameGe("n12".into()), Probe::NameLt("n21".into())]); }
+    if btree_name {
+        p.extend([Probe::NameGe("b".into()), Probe::NameLt("b".into()), Probe::NameGe("n12".into()), Probe::NameLt("n21".into())]);
+        p.extend([Probe::NameBtEq("a".into()), Probe::NameBtEq("b".into())]);
+    }
     p
 }
 
@@ -359,9 +394,11 @@ impl World {
             Err(e) => return Some(e),
         }
         for p in probes {
-            let want: Vec<MRow> = exp.iter().filter(|r| p.m(r)).cloned().collect();
             match self.eng.select(&self.tbl, p.cond()).map(conv_rows) {
-                Ok(v) => if canon(&v, strict) != canon(&want, strict) { return Some(format!("indexed read {p:?} returned {v:?}, expected {want:?}")); },
+                Ok(v) => if canon(&v, strict) != canon_of(exp.iter().filter(|r| p.m(r)), strict) {
+                    let want: Vec<&MRow> = exp.iter().filter(|r| p.m(r)).collect();
+                    return Some(format!("indexed read {p:?} returned {v:?}, expected {want:?}"));
+                },
                 Err(e) => return Some(format!("indexed read {p:?}: {e:?}")),
             }
         }
@@ -637,6 +674,162 @@ fn check_timeout0(kind: &str, out: &mut Vec<Finding>, st: &mut Stats) {
         || format!("lock timeout 0: A upd(1) -> {ra:?}; lock expired observed: {expired} after {spins} polls; B {op:?} -> {rb:?}"));
 }
 
+// ----------------------------------------------------------------------------------------- takeover
+
+fn takeover_json(sc: &Script) -> J {
+    let mut j = sc.to_json();
+    j["takeover"] = json!(true);
+    j
+}
+
+/// shape of a takeover script: statements of A (= T1), then statements of B (= T2) and B's commit | rollback
+fn takeover_shape(sc: &Script) -> Result<(Vec<Op>, Vec<Op>, bool), String> {
+    let stmt = |o: &Op| !matches!(o, Op::Commit | Op::Rollback);
+    let n1 = sc.steps.iter().take_while(|s| s.tx == 0 && stmt(&s.op)).count();
+    let rest = &sc.steps[n1..];
+    let n2 = rest.iter().take_while(|s| s.tx == 1 && stmt(&s.op)).count();
+    if n1 == 0 || n2 == 0 || rest.len() != n2 + 1 || rest[n2].tx != 1 || stmt(&rest[n2].op) {
+        return Err("takeover script must be: statements of A, statements of B, B's commit|rollback".into());
+    }
+    Ok((sc.steps[..n1].iter().map(|s| s.op.clone()).collect(), rest[..n2].iter().map(|s| s.op.clone()).collect(), rest[n2].op == Op::Commit))
+}
+
+struct Tk { w: World, t1: u64, t1_ok: Vec<Op>, t1_eids: Vec<u64>, t2_ops: Vec<Op>, commit: bool, probes: Vec<Probe>, out: Vec<Finding>, alive: bool }
+
+/// Row-lock takeover after expiry.  Phase 1 (every scenario, own table on ONE engine with lock timeout 1 s):
+/// T1 executes its statements and stays active.  Then the single sleep.  Phase 2 (scenario by scenario, each
+/// within microseconds): T2's statements, T2's end, the lock-table / view checks and T3.
+fn check_takeover(scs: &[Script], st: &mut Stats) -> Vec<Vec<Finding>> {
+    let cx = Ctx::new(TAKEOVER_LOCK_SECS);
+    let mut tks: Vec<Tk> = vec![];
+    for sc in scs {
+        let (t1_ops, t2_ops, commit) = takeover_shape(sc).unwrap_or_else(|e| die(&e));
+        let w = World::new(&cx, sc.idx, max_eid_of(sc));
+        let mut out = vec![];
+        let t1 = w.eng.begin_transaction();
+        st.evals += 1;
+        let mut t1_ok = vec![];
+        let mut alive = true;
+        for op in &t1_ops {
+            let v0 = w.view().unwrap_or_else(|e| die(&e));
+            let matched: Vec<u64> = match op { Op::Upd { c, .. } | Op::Del { c } => v0.iter().filter(|r| c.m(r.id)).map(|r| r.eid).collect(), _ => vec![] };
+            let r = w.call(t1, op);
+            st.evals += 1; st.nontrivial += 1;
+            let h1 = w.holders();
+            let own = matches!(r, Res::Ok(_)) && matched.iter().all(|e| h1.get(*e as usize - 1).copied().flatten() == Some(t1));
+            chk(&mut out, OB_KER, own, || format!("takeover phase 1: T1 {op:?} -> {r:?} on a table nobody else uses must succeed and own the matched rows {matched:?}; holders {h1:?}"));
+            if own { t1_ok.push(op.clone()); } else { alive = false; }
+        }
+        let t1_eids: Vec<u64> = w.holders().iter().enumerate().filter(|(_, h)| **h == Some(t1)).map(|(i, _)| i as u64 + 1).collect();
+        if t1_eids.is_empty() { alive = false; }
+        tks.push(Tk { w, t1, t1_ok, t1_eids, t2_ops, commit, probes: probes_for(sc), out, alive });
+    }
+    // the one sleep: afterwards more than the lock timeout has elapsed since every T1 statement
+    std::thread::sleep(std::time::Duration::from_millis(TAKEOVER_SLEEP_MS));
+    for tk in &mut tks {
+        if !tk.alive { continue; }
+        let (w, out) = (&tk.w, &mut tk.out);
+        let tm = w.eng.tx_manager();
+        let mut spins = 0u64;
+        while tk.t1_eids.iter().any(|e| tm.is_row_locked(&w.tbl, *e)) && spins < 50_000_000 { spins += 1; std::hint::spin_loop(); }
+        let h0 = w.holders();
+        let expired = tk.t1_eids.iter().all(|e| !tm.is_row_locked(&w.tbl, *e)) && h0.iter().all(Option::is_none) && w.eng.is_transaction_active(tk.t1);
+        chk(out, OB_TO, expired, || format!("lock timeout {TAKEOVER_LOCK_SECS} s: {TAKEOVER_SLEEP_MS} ms after T1's statements its locks on engine rows {:?} must be reported expired (T1 still active); holders {h0:?}", tk.t1_eids));
+        if !expired { continue; }
+        // model: T1's statements are applied (T1 is active), then T2's
+        let mut rows = initial();
+        let mut next = 4u64;
+        for op in &tk.t1_ok { model_apply(&mut rows, &mut next, op); }
+        let before_t2 = rows.clone();
+        let lc0 = tm.active_lock_count();
+        let t2 = w.eng.begin_transaction();
+        st.evals += 1;
+        // user ids of the rows T2 modified; engine row ids it locked; which of them it took over from T1
+        let mut touched: BTreeSet<i64> = BTreeSet::new();
+        let mut locked: BTreeSet<u64> = BTreeSet::new();
+        let mut stmts_ok = true;
+        for op in &tk.t2_ops {
+            let v0 = w.view().unwrap_or_else(|e| die(&e));
+            let hb = w.holders();
+            let matched: Vec<MRow> = match op { Op::Upd { c, .. } | Op::Del { c } => v0.iter().filter(|r| c.m(r.id)).cloned().collect(), _ => vec![] };
+            let want = if matches!(op, Op::Ins { .. }) { 1 } else { matched.len() as u64 };
+            let r = w.call(t2, op);
+            st.evals += 1; st.nontrivial += 1;
+            let h1 = w.holders();
+            chk(out, OB_TO, r == Res::Ok(want), || format!("T2 {op:?} -> {r:?}, expected Ok({want}): every lock on the addressed rows {:?} is expired or absent (holders {hb:?})", matched.iter().map(|m| m.eid).collect::<Vec<_>>()));
+            if r != Res::Ok(want) { stmts_ok = false; break; }
+            let own = matched.iter().all(|m| h1.get(m.eid as usize - 1).copied().flatten() == Some(t2));
+            let frame = hb.iter().zip(h1.iter()).all(|(a, b)| a == b || (a.is_none() && *b == Some(t2)));
+            chk(out, OB_KER, own && frame, || format!("after T2's successful {op:?} every matched row is owned by tx {t2} and no live owner changed; holders {hb:?} -> {h1:?}"));
+            model_apply(&mut rows, &mut next, op);
+            match op { Op::Ins { id, .. } => { touched.insert(*id); }, _ => for m in &matched { touched.insert(m.id); locked.insert(m.eid); } }
+        }
+        if !stmts_ok { let _ = w.eng.rollback(t2); continue; }
+        let taken: Vec<u64> = locked.iter().copied().filter(|e| tk.t1_eids.contains(e)).collect();
+        if taken.is_empty() { die("takeover scenario in which T2 addresses no row that T1 had locked"); }
+        let held_mid = tm.locks_held_by(t2);
+        let r_end = w.call(t2, if tk.commit { &Op::Commit } else { &Op::Rollback });
+        st.evals += 1; st.nontrivial += 1;
+        if !tk.commit { rows = before_t2; }
+        let h1 = w.holders();
+        let lh = tm.locks_held_by(t2);
+        let lc1 = tm.active_lock_count();
+        let still: Vec<u64> = locked.iter().copied().filter(|e| tm.is_row_locked(&w.tbl, *e)).collect();
+        let released = matches!(r_end, Res::Ok(_)) && h1.iter().all(|h| *h != Some(t2)) && still.is_empty() && lh == 0 && lc1 <= lc0 && !w.eng.is_transaction_active(t2);
+        chk(out, OB_TK, released, || format!("T2 (tx {t2}) locked engine rows {locked:?}, of which {taken:?} taken over from the expired T1 (tx {}), then {} -> {r_end:?}: afterwards no row may be locked by T2; holders {h1:?}; still locked {still:?}; locks_held_by(T2) {held_mid}->{lh}; active_lock_count before T2 {lc0}, after its end {lc1}",
+                                                                   tk.t1, if tk.commit { "commit" } else { "rollback" }));
+        let d = w.diff_view(&rows, false, &tk.probes);
+        chk(out, OB_TK, d.is_none(), || format!("view after T2's {}: {}", if tk.commit { "commit" } else { "rollback" }, d.clone().unwrap_or_default()));
+        // T3 updates and deletes every row T2 had modified
+        let t3 = w.eng.begin_transaction();
+        st.evals += 1;
+        let mut t3_res = vec![];
+        let mut t3_ok = true;
+        for k in &touched {
+            for op in [Op::Upd { c: Cond::Id(*k), tag: 31, mode: 1 }, Op::Del { c: Cond::Id(*k) }] {
+                let want = rows.iter().filter(|r| r.id == *k).count() as u64;
+                let r = w.call(t3, &op);
+                st.evals += 1;
+                if want > 0 { st.nontrivial += 1; }
+                if r == Res::Ok(want) { model_apply(&mut rows, &mut next, &op); } else { t3_ok = false; }
+                t3_res.push((*k, if matches!(op, Op::Upd { .. }) { "upd" } else { "del" }, r, want));
+            }
+        }
+        chk(out, OB_TK, t3_ok, || format!("after T2 ended, T3 updating and deleting the rows T2 had modified (user id, statement, result, expected count): {t3_res:?}; holders before T3 {h1:?}"));
+        let r3 = w.call(t3, &Op::Commit);
+        st.evals += 1; st.nontrivial += 1;
+        let h3 = w.holders();
+        let d3 = if t3_ok { w.diff_view(&rows, false, &tk.probes) } else { None };
+        chk(out, OB_TK, matches!(r3, Res::Ok(_)) && h3.iter().all(|h| *h != Some(t3) && *h != Some(t2)) && tm.locks_held_by(t3) == 0 && d3.is_none(),
+            || format!("T3 commit -> {r3:?}; holders {h3:?}; locks_held_by(T3) {}; view: {d3:?}", tm.locks_held_by(t3)));
+    }
+    tks.into_iter().map(|t| t.out).collect()
+}
+
+/// T1's statement x T2's statements (one or two; taking over one row, several rows, one of two rows) x T2's end
+fn takeover_scripts() -> Vec<Script> {
+    let (a, b) = (0usize, 1usize);
+    let t1s = [L::Upd(Cond::Id(1), 0), L::Upd(Cond::Le(2), 0), L::Upd(Cond::All, 1)];
+    let t2s: Vec<Vec<L>> = vec![
+        vec![L::Upd(Cond::Id(1), 0)], vec![L::Del(Cond::Id(1))], vec![L::Upd(Cond::Le(2), 0)], vec![L::Del(Cond::Le(2))], vec![L::Upd(Cond::All, 1)],
+        vec![L::Upd(Cond::Id(2), 0), L::Upd(Cond::Id(1), 0)], vec![L::Ins(0), L::Upd(Cond::Id(1), 0)], vec![L::Upd(Cond::Id(1), 3)], vec![L::Upd(Cond::Id(1), 1), L::Del(Cond::Id(1))],
+    ];
+    let mut v = vec![];
+    for idx in [0u8, 2] {
+        for t1 in t1s {
+            for t2 in &t2s {
+                for commit in [true, false] {
+                    let mut items = vec![Item::S(a, t1)];
+                    items.extend(t2.iter().map(|l| Item::S(b, *l)));
+                    items.push(Item::End(b, commit));
+                    v.push(build(idx, &items));
+                }
+            }
+        }
+    }
+    v
+}
+
 // --------------------------------------------------------------------------------------- generation
 
 #[derive(Clone, Copy, Debug)]
@@ -679,6 +872,11 @@ fn alpha8() -> Vec<L> {
     v
 }
 fn alpha10() -> Vec<L> { let mut v = alpha8(); v.push(L::Upd(Cond::Id(4), 0)); v.push(L::Del(Cond::Id(4))); v }
+/// updates that assign to an indexed column the value a row ALREADY holds: name='a' where id=1 / all rows
+/// (rows 1 and 3 hold 'a'), score=1.0 where id=1 / all rows (row 1 holds 1.0)
+fn same4() -> Vec<L> { vec![L::Upd(Cond::Id(1), 3), L::Upd(Cond::All, 3), L::Upd(Cond::Id(1), 4), L::Upd(Cond::All, 4)] }
+fn is_same(l: &L) -> bool { matches!(l, L::Upd(Cond::Id(1) | Cond::All, 3) | L::Upd(_, 4)) }
+fn with_same4(mut v: Vec<L>) -> Vec<L> { v.extend(same4()); v }
 fn alpha_ext() -> Vec<L> {
     let mut v = alpha10();
     v.extend([L::Ins(1), L::Upd(Cond::Id(1), 2), L::Upd(Cond::Id(2), 3), L::Upd(Cond::All, 3), L::Del(Cond::All), L::Upd(Cond::Le(2), 0), L::Del(Cond::Le(2))]);
@@ -729,7 +927,9 @@ pub fn run(tier: Tier, seed: u64) -> Report {
     let thorough = tier == Tier::Thorough;
     let common = "table t(id Int, name String?, score Float?), rows (1,'a',1.0),(2,'b',2.0),(3,'a',NULL); index configuration 0 = hash(name)+btree(score) created before the rows, 1 = hash(score)+btree(name), 2 = both kinds on both columns, 3 = like 0 but created after the rows. \
         Letters: 8 = {insert fresh row, update(name,score) where id=k, delete where id=k (k=1..3), update(score) all rows}; 10 = 8 + update/delete where id=4 (first inserted row); \
-        17 = 10 + {insert with NULL name and omitted score, set name NULL where id=1, set name='a' where id=2, set name='a' all, delete all, update/delete where id<=2}. \
+        17 = 10 + {insert with NULL name and omitted score, set name NULL where id=1, set name='a' where id=2, set name='a' all, delete all, update/delete where id<=2}; \
+        S4 = the updates that assign the value a row already holds {set name='a' where id=1, set name='a' all rows, set score=1.0 where id=1, set score=1.0 all rows}; 14 = 10 + S4, 12 = 8 + S4. \
+        After every commit/rollback the table and indexed reads are compared with the model: hash index Eq on every value the script can write + the initial ones, btree index ranges and btree equality (col >= x AND col <= x) on the initial values (name 'a','b'; score 1.0, 2.0). \
         A transaction begins right before its first statement; every script ends every transaction by commit or rollback (all combinations). ";
     let specific = if thorough {
         "(1) every single-transaction script of <= 3 statements over the 17 letters x 4 index configurations, and of exactly 4 statements x configurations {0,2}; \
@@ -737,11 +937,15 @@ pub fn run(tier: Tier, seed: u64) -> Report {
          (3) two statements of B at every pair of positions: A <= 2 statements over 8 letters, B over 6 letters, 3 shapes; A of 3 statements over 6 letters, B over 4 letters, 2 shapes; \
          (4) 3 lock-timeout-0 cases; (5) 150000 seeded random scripts of 2-3 transactions A,B,C with 1-3 statements each over the 17 letters, random index configuration, occasional retry and call on a finished transaction (not exhaustive)"
     } else {
-        "(1) every single-transaction script of <= 3 statements over the 10 letters x index configurations {0,2}; \
+        "(1) every single-transaction script of <= 3 statements over the 14 letters x index configurations {0,2}; \
          (2) every A script of <= 2 statements over the 8 letters with one statement of B (10 letters) at every position, and every A script of 3 statements with one of 5 B statements {insert, update id=1, delete id=1, update all, delete id=4} at every position; B ends at once or retries its statement after A ended; \
          (3) 3 lock-timeout-0 cases"
     };
-    let domain = &format!("{common}{specific}");
+    let both = format!("; in both tiers: (S1) every single-transaction script of 1..3 statements over the 14 letters with >= 1 S4 letter x index configurations {}; \
+         (S2) every A script of <= 2 statements over the 12 letters with one statement of B ({{insert, update id=1, delete id=1, update all, delete id=4}} + S4) at every position, >= 1 S4 letter in A or B; (S3) every A script of 3 statements over {{update id=1, delete id=1}} + S4 with one B statement of {{update id=1, set score=1.0 all rows}} at every position, >= 1 S4 letter; B ends at once or retries its statement after A ended; \
+         (T) row-lock takeover after expiry, lock timeout 1 s, ONE sleep of 1.1 s for all scenarios: T1 in {{update id=1, update id<=2, update all}} never ends; T2 in {{update id=1, delete id=1, update id<=2, delete id<=2, update all, update id=2 then id=1, insert then update id=1, set name='a' where id=1, update then delete id=1}} x {{commit, rollback}} x configurations {{0,2}}; then T3 updates and deletes every row T2 modified",
+        if thorough { "{0,1,2,3}" } else { "{1} ({0,2} are part of (1))" });
+    let domain = &format!("{common}{specific}{both}");
     let rep = Report::new("c09_reltx", domain, true,
         &["relational_engine::RelationalEngine::begin_transaction", "tx_insert", "tx_update", "tx_delete", "tx_select", "commit", "rollback",
           "TransactionManager::row_lock_holder", "active_lock_count", "locks_held_by", "is_row_locked"]);
@@ -751,7 +955,7 @@ pub fn run(tier: Tier, seed: u64) -> Report {
             OB_RB | OB_RB_I => "RelationalEngine::rollback",
             OB_CM | OB_CM_I => "RelationalEngine::commit",
             OB_PH => "RelationalEngine::{tx_insert,tx_update,tx_delete,tx_select,commit,rollback}",
-            OB_REL => "RelationalEngine::{commit,rollback}",
+            OB_REL | OB_TK => "RelationalEngine::{commit,rollback}",
             _ => "RelationalEngine::{tx_update,tx_delete}",
         };
         rn.rep.declare(o, f);
@@ -759,9 +963,15 @@ pub fn run(tier: Tier, seed: u64) -> Report {
     let (a, b) = (0usize, 1usize);
 
     // (1) single transaction
-    let solo: Vec<(Vec<L>, usize, usize, Vec<u8>)> = if thorough { vec![(alpha_ext(), 0, 3, vec![0, 1, 2, 3]), (alpha_ext(), 4, 4, vec![0, 2])] } else { vec![(alpha10(), 0, 3, vec![0, 2])] };
-    for (alpha, lo, hi, idxs) in &solo {
-        for seq in sequences(alpha, *hi).into_iter().filter(|s| s.len() >= *lo) {
+    // (bool: only the sequences with >= 1 "value already held" letter, the others are covered by another entry)
+    let a14 = with_same4(alpha10());
+    let solo: Vec<(Vec<L>, usize, usize, Vec<u8>, bool)> = if thorough {
+        vec![(alpha_ext(), 0, 3, vec![0, 1, 2, 3], false), (alpha_ext(), 4, 4, vec![0, 2], false), (a14.clone(), 1, 3, vec![0, 1, 2, 3], true)]
+    } else {
+        vec![(a14.clone(), 0, 3, vec![0, 2], false), (a14.clone(), 1, 3, vec![1], true)]
+    };
+    for (alpha, lo, hi, idxs, only_same) in &solo {
+        for seq in sequences(alpha, *hi).into_iter().filter(|s| s.len() >= *lo && (!*only_same || s.iter().any(is_same))) {
             for &idx in idxs {
                 for end in [true, false] {
                     let mut items: Vec<Item> = seq.iter().map(|l| Item::S(a, *l)).collect();
@@ -776,15 +986,21 @@ pub fn run(tier: Tier, seed: u64) -> Report {
     // (2) one statement of B at every position of A's script
     let b5 = vec![L::Ins(0), L::Upd(Cond::Id(1), 0), L::Del(Cond::Id(1)), L::Upd(Cond::All, 1), L::Del(Cond::Id(4))];
     let a6 = vec![L::Ins(0), L::Upd(Cond::Id(1), 0), L::Upd(Cond::Id(2), 0), L::Del(Cond::Id(1)), L::Del(Cond::Id(2)), L::Upd(Cond::All, 1)];
-    let one_b: Vec<(Vec<L>, usize, usize, Vec<L>, Vec<u8>)> = if thorough {
-        vec![(alpha8(), 0, 3, alpha10(), vec![0, 1, 2]), (a6.clone(), 4, 4, b5.clone(), vec![0, 2])]
+    // (bool: only the scripts with >= 1 "value already held" letter in A or B)
+    let a6s = vec![L::Upd(Cond::Id(1), 0), L::Del(Cond::Id(1)), L::Upd(Cond::Id(1), 3), L::Upd(Cond::All, 3), L::Upd(Cond::Id(1), 4), L::Upd(Cond::All, 4)];
+    let b2s = vec![L::Upd(Cond::Id(1), 0), L::Upd(Cond::All, 4)];
+    let mut one_b: Vec<(Vec<L>, usize, usize, Vec<L>, Vec<u8>, bool)> = if thorough {
+        vec![(alpha8(), 0, 3, alpha10(), vec![0, 1, 2], false), (a6.clone(), 4, 4, b5.clone(), vec![0, 2], false)]
     } else {
-        vec![(alpha8(), 0, 2, alpha10(), vec![0, 2]), (alpha8(), 3, 3, b5.clone(), vec![0, 2])]
+        vec![(alpha8(), 0, 2, alpha10(), vec![0, 2], false), (alpha8(), 3, 3, b5.clone(), vec![0, 2], false)]
     };
-    for (alpha, lo, hi, b_alpha, shapes) in &one_b {
+    one_b.push((with_same4(alpha8()), 0, 2, with_same4(b5.clone()), vec![0, 2], true));
+    one_b.push((a6s, 3, 3, b2s, vec![0, 2], true));
+    for (alpha, lo, hi, b_alpha, shapes, only_same) in &one_b {
         for seq in sequences(alpha, *hi).into_iter().filter(|s| s.len() >= *lo) {
             for p in 0..=seq.len() {
                 for bl in b_alpha {
+                    if *only_same && !is_same(bl) && !seq.iter().any(is_same) { continue; }
                     for &shape in shapes {
                         for a_end in [true, false] {
                             for b_end in [true, false] {
@@ -809,6 +1025,16 @@ pub fn run(tier: Tier, seed: u64) -> Report {
         rn.buf.clear();
         check_timeout0(kind, &mut rn.buf, &mut rn.st);
         for f in &rn.buf { rn.rep.check(f.ob, f.ok, &|| json!({"timeout0": kind}), &|| f.detail.clone()); }
+    }
+
+    // (6) row-lock takeover after expiry (lock timeout 1 s, ONE sleep for all scenarios)
+    let tk = takeover_scripts();
+    let outs = check_takeover(&tk, &mut rn.st);
+    for (sc, fs) in tk.iter().zip(outs.iter()) {
+        for f in fs {
+            rn.rep.check(f.ob, f.ok, &|| takeover_json(sc), &|| f.detail.clone());
+            if !f.ok { *rn.failing.entry(f.ob).or_insert(0) += 1; }
+        }
     }
 
     if thorough {
@@ -879,6 +1105,11 @@ pub fn replay(ob: &str, case: &J) -> Result<String, String> {
     let mut st = Stats::default();
     if let Some(k) = case.get("timeout0").and_then(J::as_str) {
         check_timeout0(k, &mut out, &mut st);
+    } else if case.get("takeover").and_then(J::as_bool) == Some(true) {
+        // (sleeps 1.1 s once: the lock timeout of the takeover scenarios is 1 s)
+        let sc = Script::from_json(case).map_err(|e| format!("bad case json: {e}"))?;
+        takeover_shape(&sc).map_err(|e| format!("bad case json: {e}"))?;
+        out = check_takeover(&[sc], &mut st).pop().unwrap_or_default();
     } else {
         let sc = Script::from_json(case).map_err(|e| format!("bad case json: {e}"))?;
         check_script(&Ctx::new(LONG_SECS), &sc, &mut out, &mut st);
